@@ -123,6 +123,10 @@ var c08Zoo = []struct{ name, patch, src string }{
 	{"line-directive-in-import-group", "@@\n@@\n-import \"errors\"\n\n-errors.New(\"x\")\n+nil\n", "package a\n\nimport (\n\t\"errors\"\n//line foo.go:1000\n\n\t// doc\n\t\"fmt\"\n)\n\nfunc f() error {\n\tfmt.Println(\"hi\")\n\treturn errors.New(\"x\")\n}\n"},
 	{"line-directive-before-trailing-import-comment", "@@\n@@\n-import \"errors\"\n\n-errors.New(\"x\")\n+nil\n", "package a\n\nimport (\n\t\"errors\"\n/*line bar.go:77*/\n\t\"fmt\" // used below\n)\n\nfunc f() error {\n\tfmt.Println(\"hi\")\n\treturn errors.New(\"x\")\n}\n"},
 	{"line-directive-add-import", "@@\n@@\n+import \"os\"\n\n-vfExit()\n+os.Exit(1)\n", "package a\n\n//line gen.y:40\nimport (\n\t\"fmt\"\n)\n\n//line gen.y:90\nfunc f() {\n\tfmt.Println()\n\tvfExit()\n}\n"},
+	{"add-import-and-change-last-decl-split-imports", "@@\n@@\n+import \"context\"\n\n-func last() {\n+func last(ctx context.Context) {\n   ...\n }\n", "package a\n\nimport \"fmt\"\nimport \"os\"\n\nfunc first() { fmt.Println(os.Args) }\n\nfunc last() {\n\tfmt.Println()\n}\n"},
+	{"add-import-and-change-decl-no-imports", "@@\n@@\n+import \"context\"\n\n-func last() {\n+func last(ctx context.Context) {\n   ...\n }\n", "package a\n\nfunc first() {}\n\nfunc last() {\n\tprintln()\n}\n"},
+	{"context-line-without-leading-blank", "@@\n@@\n... := foo()\n+bar()\n", "package a\n\nfunc b() {\n\tx := foo()\n}\n"},
+	{"dots-in-column-one-both-sides", "@@\n@@\n... := foo(...)\n+..., err := foo(...)\n", "package a\n\nfunc b() {\n\tx := foo()\n}\n"},
 	{"named-change", "@@ first @@\nvar x expression\n@@\n-vfA(x)\n+vfB(x)\n", "package a\n\nfunc f() {\n\tvfA(1)\n}\n"},
 }
 
